@@ -118,7 +118,7 @@ func (encryptor *HashQuery) OnQuery(ctx context.Context, query postgresql.OnQuer
 			continue
 		}
 		placeholderIndex := paramRef.GetNumber() - 1
-		bindSettings[int(placeholderIndex)] = item.Setting
+		queryEncryptor.SetPlaceholderSetting(bindSettings, int(placeholderIndex), item.Setting)
 	}
 	logrus.Debugln("HashQuery.OnQuery changed query")
 	return postgresql.NewOnQueryObjectFromStatement(parseResult), true, nil
